@@ -49,8 +49,12 @@ try:
             tail = (r.stdout.strip().splitlines() or [""])[-1]
             res["tests"] = {"rc": r.returncode, "summary": tail, "wall_s": round(time.time() - t0)}
         res["checks"] = {}
+        if "--no-checks" in args:
+            checks = []
+            old = json.load(open(os.path.join(d, "eval.json"))) if os.path.exists(os.path.join(d, "eval.json")) else {}
+            res["checks"] = old.get("checks", {})
         for c in checks:
-            env = dict(os.environ, VOTEKIT_SRC=wt + "/src", VERIF_TIER=tier)
+            env = dict(os.environ, VOTEKIT_SRC=wt + "/src", VERIF_TIER=tier, VERIF_OUT=wt + "/.verif_out", VERIF_EVID=wt + "/.verif_evid")
             t0 = time.time()
             r = subprocess.run(["/verif/check", c, "--tier", tier], env=env, capture_output=True, text=True)
             lines = (r.stdout + r.stderr).strip().splitlines()
@@ -59,8 +63,6 @@ try:
                                 "signatures": [l.strip()[1:].split(": ")[0] for l in lines if l.startswith("  (")][:6], "last": lines[-1][:200] if lines else "",
                                 "wall_s": round(time.time() - t0)}
             # evidence written by a run against a mutant must not stay behind
-            ev = "/verif/evidence/%s.json" % c
-            subprocess.run(["git", "-C", "/verif", "checkout", "--", ev], capture_output=True)
         res["detected_by"] = [c for c, v in res["checks"].items() if v["exit"] == 1]
 finally:
     subprocess.run(["git", "-C", "/repo", "worktree", "remove", "--force", wt], capture_output=True)
